@@ -600,7 +600,6 @@ theorem facExec_tr {w w' : World} {s : Nat} {funds : List (Nat × Nat)} {m : Fac
   have hpair := (attach_same h0).1.pair
   cases m with
   | updateConfig o =>
-    have k := C07.facUpdateConfig_ledger h
     have h : facUpdateConfig w0 s o = .ok w' := h
     unfold facUpdateConfig at h
     split at h
@@ -637,6 +636,15 @@ def MintOf (op : Op) (z : Nat) : Prop :=
 /-- the only address at which an operation may create a pair contract -/
 def NewOf (op : Op) (q : Nat) : Prop :=
   ∃ s f a0 a1 req c nl, op = .factory s f (.createPair a0 a1 req c q nl)
+
+/-- the two facts `FreshOK` provides (the only places where its shape is used) -/
+theorem freshOK_pair {w : World} {op : Op} {s : Nat} {f : List (Nat × Nat)} {a0 a1 : Asset} {req : Requirements}
+    {c : Option Nat} {np nl : Nat} (hf : FreshOK w op) (e : op = .factory s f (.createPair a0 a1 req c np nl)) :
+    w.pair np = none := (hf s f a0 a1 req c np nl e).1
+
+theorem freshOK_tok {w : World} {op : Op} {s : Nat} {f : List (Nat × Nat)} {a0 a1 : Asset} {req : Requirements}
+    {c : Option Nat} {np nl : Nat} (hf : FreshOK w op) (e : op = .factory s f (.createPair a0 a1 req c np nl)) :
+    w.tok nl = none := (hf s f a0 a1 req c np nl e).2.1
 
 theorem pairExec_isSome {w : World} {s p : Nat} {f : List (Nat × Nat)} {m : PairMsg} {r : World × Out}
     (h : pairExec w s p f m = .ok r) : (w.pair p).isSome := by
@@ -684,7 +692,7 @@ theorem exec_tr {name : Asset → String} {w w' : World} {op : Op} {out : Out}
     obtain ⟨w1, h1, rfl, _⟩ := h
     refine facExec_tr h1 hact ?_
     intro a0 a1 req c np nl e
-    obtain ⟨f1, f2⟩ := hf s f a0 a1 req c np nl (by rw [e])
-    exact ⟨f1, f2, ⟨s, f, a0, a1, req, c, nl, by rw [e]⟩⟩
+    have e' : Op.factory s f m = .factory s f (.createPair a0 a1 req c np nl) := by rw [e]
+    exact ⟨freshOK_pair hf e', freshOK_tok hf e', ⟨s, f, a0, a1, req, c, nl, e'⟩⟩
 
 end Halo.Flows
